@@ -38,6 +38,17 @@ BRIDGE = {
 }
 
 
+# translated functions (harness/pyfun2lean.py) each property's model or harness relies on: `Generated.Funcs.f = Pinned.Funcs.f`
+BRIDGE_FUNCS = {
+    "C03": ["to_snake_case"],
+    "C08": ["address_resolve"],
+    "C11": ["to_valid_filename", "to_valid_module_name"],
+    "C12": ["to_snake_case", "to_valid_module_name"],
+    "C15": ["to_snake_case"],
+    "C20": ["is_list_item", "get_subsequent_line_indentation_level"],
+}
+
+
 def _strip_comments(src: str) -> str:
     src = re.sub(r"/-.*?-/", lambda m: "\n" * m.group(0).count("\n"), src, flags=re.S)
     return re.sub(r"--.*", "", src)
@@ -185,6 +196,24 @@ def prepare(prop: str, extra_modules=(), tier: str = "quick") -> LeanStatus:
             blocked = rc2 != 0 and not berr
             st.add(f"Bridge.{item}", "bridge", not bad and not blocked,
                    (bad[0] if bad else ("bridge module did not build" if blocked else "Generated = Pinned")))
+        if BRIDGE_FUNCS.get(prop):
+            rc5, log5 = _run(["lake", "build", "GapicModel.Bridge.Funcs"])
+            st.log += log5
+            ferr = [(int(m.group(2)), m.group(4)[:200]) for m in re.finditer(r"error: (\S+?\.lean):(\d+):(\d+):\s*(.*)", log5)
+                    if m.group(1) == "GapicModel/Bridge/Funcs.lean"]
+            fpath = os.path.join(MODEL_DIR, "Bridge", "Funcs.lean")
+            fthms = {n.split(".")[-1]: (a, b) for n, a, b in theorems_in(fpath)}
+            for item in BRIDGE_FUNCS[prop]:
+                if "fn:" + item in errs:
+                    st.add(f"Bridge.Funcs.{item}", "bridge", False, "translator refused the current source: " + errs["fn:" + item])
+                elif item not in fthms:
+                    st.add(f"Bridge.Funcs.{item}", "bridge", False, "no such bridge lemma")
+                else:
+                    a, b = fthms[item]
+                    bad = [msg for (ln, msg) in ferr if a <= ln <= b]
+                    blocked = rc5 != 0 and not ferr
+                    st.add(f"Bridge.Funcs.{item}", "bridge", not bad and not blocked,
+                           (bad[0] if bad else ("bridge module did not build" if blocked else "translation of the current source = pinned definition (rfl)")))
         if "<translator>" in errs:
             st.add("translator", "bridge", False, errs["<translator>"])
         hits = forbidden_hits()
